@@ -151,6 +151,80 @@ def expected(cell) -> bool:
     return id_eq and ord_eq and (sd, od) in {("$", "$"), ("<", ">"), (">", "<")}
 
 
+def _id_text_complete(eng, init, flow, arg, at):
+    import re as _re
+
+    t = flow.expand(arg, at, depth=6)
+    txt = src(t)
+    core = txt[:-len(".strip()")] if txt.endswith(".strip()") else txt
+    if _re.fullmatch(r"self\._raw_text\[2:(-1|§phi\((self\._raw_text\.find\('\|'\), -1|-1, self\._raw_text\.find\('\|'\))\))\]", core):
+        return True, f"id text = {core}"
+    # regular-expression spelling: the group that yields the id must take every digit
+    calls_ = [c for c in ast.walk(t) if isinstance(c, ast.Call) and isinstance(c.func, ast.Attribute) and c.func.attr == "group"]
+    if calls_:
+        g = calls_[0]
+        gi = g.args[0].value if g.args and isinstance(g.args[0], ast.Constant) else 0
+        m = g.func.value
+        pat = None
+        if isinstance(m, ast.Call) and isinstance(m.func, ast.Attribute) and m.func.attr in ("match", "search", "fullmatch"):
+            recv = m.func.value
+            if isinstance(recv, ast.Name) and recv.id == "re" and m.args and isinstance(m.args[0], ast.Constant):
+                pat = m.args[0].value
+            elif isinstance(recv, ast.Name):
+                for st in init.module.tree.body:
+                    if isinstance(st, ast.Assign) and any(isinstance(x, ast.Name) and x.id == recv.id for x in st.targets) and isinstance(st.value, ast.Call) \
+                            and src(st.value.func) == "re.compile" and st.value.args and isinstance(st.value.args[0], ast.Constant):
+                        pat = st.value.args[0].value
+        if pat is None:
+            raise AnalysisError("descriptor id is parsed with a regular expression whose pattern cannot be located")
+        try:
+            import re._parser as sp
+            import re._constants as sc
+        except ImportError:  # pragma: no cover
+            import sre_parse as sp
+            import sre_constants as sc
+        tree = sp.parse(pat)
+
+        def find_group(items, idx):
+            for op, av in items:
+                if op is sc.SUBPATTERN:
+                    if av[0] == idx:
+                        return list(av[3])
+                    r = find_group(av[3], idx)
+                    if r is not None:
+                        return r
+                elif op in (sc.MAX_REPEAT, sc.MIN_REPEAT):
+                    r = find_group(av[2], idx)
+                    if r is not None:
+                        return r
+                elif op is sc.BRANCH:
+                    for alt in av[1]:
+                        r = find_group(alt, idx)
+                        if r is not None:
+                            return r
+            return None
+
+        grp = list(tree) if gi == 0 else find_group(tree, gi)
+        if grp is None:
+            raise AnalysisError(f"group {gi} not found in pattern {pat!r}")
+        digit_reps = []
+        for op, av in grp:
+            if op in (sc.MAX_REPEAT, sc.MIN_REPEAT):
+                inner = list(av[2])
+                is_digit = len(inner) == 1 and (
+                    (inner[0][0] is sc.IN and any(x == (sc.CATEGORY, sc.CATEGORY_DIGIT) or (x[0] is sc.RANGE and x[1] == (48, 57)) for x in inner[0][1]))
+                    or inner[0] == (sc.CATEGORY, sc.CATEGORY_DIGIT))
+                if is_digit:
+                    digit_reps.append((av[0], av[1]))
+        if len(digit_reps) == 1:
+            lo, hi = digit_reps[0]
+            if hi == sc.MAXREPEAT:
+                return True, f"regular expression {pat!r}: group {gi} takes every digit"
+            return False, f"regular expression {pat!r}: group {gi} takes at most {hi} digit(s): ids with more digits are truncated (e.g. [$12] is read as id {'1' * int(hi)})"
+        raise AnalysisError(f"descriptor id is parsed with regular expression {pat!r}, whose group {gi} is outside what the analysis decides")
+    raise AnalysisError(f"the text of the descriptor id ({txt[:80]}) is obtained in a way the analysis does not recognise")
+
+
 def bond_order_table(eng, res, fi):
     """R-BONDORDER-TABLE: the ladder `if "<ch>" in preceding: bond_type = X` read as an ordered table."""
     ladder = []  # (char, value-norm)
@@ -309,6 +383,12 @@ def check(eng, res):
             kinds.add("other:" + src(v))
     res.ob("R-COMPAT-ABSTRACTION", init, "id-domain", "descriptor_id is '' (no id: one value of its own) or int(text)", init.node,
            kinds == {"empty", "int"}, f"stores: {sorted(kinds)}")
+    # the text handed to int() is the whole id text (everything between the symbol and the first '|' or the closing bracket)
+    for s_ in id_stores:
+        v = s_.value
+        if isinstance(v, ast.Call) and isinstance(v.func, ast.Name) and v.func.id == "int" and v.args:
+            ok_t, why_t = _id_text_complete(eng, init, flow, v.args[0], cfg.node_of(s_))
+            res.ob("R-COMPAT-ABSTRACTION", init, "id-text-complete", "the id is read from the complete id text (all digits between the symbol and the first '|' or ']')", s_, ok_t, why_t)
     # (d) bond-order table
     tab, seq = bond_order_table(eng, res, init)
     res.unit(init)
